@@ -84,6 +84,9 @@ func (m *runtimeContextManager) PopContext() RuntimeContext {
 	return &mCopy
 }
 
+func (m *runtimeContextManager) propagateTermination(ContextTerminationError) {
+}
+
 func (m *runtimeContextManager) CallContext(def RuntimeContextDef, f func() error) (ctx RuntimeContext, err error) {
 	m.PushContext(def)
 	defer m.PopContext()
